@@ -7,6 +7,7 @@ Driver commands of property C11 (core Lean only).  Command names start with "c11
   c11.auxsweep <hex>              accessors on raw aux bytes -> ok | panic
   c11.bamaux <hex>                bam.parseAux            -> ok <hex,hex..|-> | err | panic
   c11.bai <hex>                   bam.ReadIndex           -> ok nil | ok <refs> <bytes WriteIndex writes> | err | panic
+  c11.tbi <hex>                   tabix.ReadFrom          -> ok nil | ok <refs> <bytes WriteTo writes> | err | panic
 
 The oracle of c11.aux is what the real strconv answered for the pieces of this text:
 `kind:hexkey=value;...` with kind a (Atoi), i8/i16/i32 (ParseInt base 0), u8/u16/u32 (ParseUint base 0),
@@ -81,6 +82,8 @@ def handle (cmd : String) (args : List String) : Option String :=
       (parseAuxBam (toBytes (← parseHex h))))
   | "c11.bai", [h] => do
     some (showOutcome (fun v => match v with | none => "nil" | some (n, len) => s!"{n} {len}") (readBAI (toBytes (← parseHex h))))
+  | "c11.tbi", [h] => do
+    some (showOutcome (fun v => match v with | none => "nil" | some (n, len) => s!"{n} {len}") (readTabix (toBytes (← parseHex h))))
   | _, _ => none
 
 end Hts.Drv.C11
